@@ -14,6 +14,7 @@ import coregen
 import corecheck
 import surface
 import vf
+from checks import c07
 
 LEVEL = "model_checking"
 
@@ -110,12 +111,88 @@ def render_native(p):
     return fix(p)
 
 
+def default_error_programs():
+    """an error passed explicitly for a parameter that has a default is the result of the call, like any other"""
+    V = lambda n: {"k": "var", "n": n}
+    I = lambda i: {"k": "lit", "ty": "int", "v": i}
+    S = lambda s: {"k": "lit", "ty": "str", "v": s}
+    C = lambda f, args, **kw: dict({"k": "call", "f": f, "args": args, "sty": "fn"}, **kw)
+    err = lambda m: C("error", [S(m)], cast="int")
+    P = lambda n, d=None: {"n": n, "ty": "int", "hasdef": d is not None, **({"def": d} if d is not None else {})}
+    pick = {"k": "fn", "n": "pick", "ovl": False, "rty": "int", "ps": [P("x"), P("fallback", I(0))], "decls": [],
+            "ret": C("if", [{"k": "call", "f": "gt", "args": [V("x"), I(0)], "sty": "op"}, V("x"), V("fallback")])}
+    keep = {"k": "fn", "n": "keep", "ovl": False, "rty": "int", "ps": [P("x"), P("y", I(1)), P("z", I(2))], "decls": [],
+            "ret": C("if_error", [V("y"), I(-1)])}
+    decls = [pick, keep]
+    calls = [C("pick", [I(5), err("boom")]), C("pick", [I(5)]), C("pick", [err("first"), err("second")]), C("pick", [I(-5), err("late")]),
+             C("keep", [I(7), err("bang")]), C("keep", [I(7), I(3), err("third")]), C("keep", [I(7)]),
+             C("if_error", [C("keep", [I(7), err("bang")]), I(-9)])]
+    for i, c in enumerate(calls):
+        decls.append({"k": "let", "n": "d%d" % i, "ty": "", "annot": False, "e": c})
+    return [{"id": "deferr", "decls": decls, "calls": [], "lim": dict(NOLIM)}]
+
+
+def callback_sweep(chk, tier):
+    """Every static signature with a callable parameter gets a callback that recurses past the depth limit
+    whenever it is invoked; the recorded trace is validated by XrRuntime: a doom event (a frame at the limit)
+    followed by an `ok` outcome - the violation was swallowed somewhere - has no action."""
+    prelude = "fn deep(n: int)->int { if(n <= 0, 0, 1 + deep(n - 1)) }\n"
+    jobs = []
+    for sig in surface.static_signatures():
+        name = sig["name"]
+        if name.startswith("__") or name in surface.SKIP:
+            continue
+        try:
+            pts, ret = surface.instantiate(sig)
+            canon = [surface.inhabitants(p)[0] for p in pts]
+        except surface.NoInhabitant:
+            continue
+        nreq = sum(1 for _, r in sig["params"] if r)
+        for i, p in enumerate(pts):
+            if p.kind != "fn":
+                continue
+            try:
+                r0 = surface.inhabitants(p.ret)[0]
+            except surface.NoInhabitant:
+                continue
+            ps = ", ".join("a%d: %s" % (k, surface.render_type(a)) for k, a in enumerate(p.args))
+            cb = "(%s) -> {if(deep(70) >= 0, %s, %s)}" % (ps, r0, r0)
+            k = max(nreq, i + 1)
+            args = list(canon[:k])
+            args[i] = cb
+            call = "%s(%s)" % (name, ", ".join(args))
+            force = ".to_array()" if ret.kind == "app" and ret.name in ("Generator", "Sequence") else ""
+            jobs.append({"id": "cb%d" % len(jobs), "src": prelude + "let r = %s%s;\n" % (call, force), "observe": ["r"], "limits": {"depth": 40},
+                         "perms": {"regex": True}, "trace": True, "timeout_ms": 30000, "max_elems": 8, "_sig": sig["text"]})
+    res = vf.run_jobs([{k: v for k, v in j.items() if not k.startswith("_")} for j in jobs], "c06-cb", timeout_ms=30000)
+    ran = []
+    tripped = 0
+    for j in jobs:
+        o = res[j["id"]]
+        oc = vf.job_outcome(o)
+        if oc == "compile_err":
+            continue
+        chk.count(1)
+        chk.nontrivial(j["src"])
+        ran.append(j)
+        if oc == "inst_MaximumStackDepth":
+            tripped += 1
+        elif oc in ("crash", "timeout", "missing") or oc.endswith("panic"):
+            chk.violation("%s: callback sweep %s" % (j["_sig"], oc), {"kind": "trace", "job": {k: v for k, v in j.items() if not k.startswith("_")}, "spec": "Trace_XrRuntime"},
+                          finding_key="cb:%s:%s" % (j["_sig"], oc))
+    n = vf.validate_job_traces(chk, [{k: v for k, v in j.items() if not k.startswith("_")} for j in ran], res, "c06-cb", what="callback-violation trace",
+                               finding_key=lambda j, idx, ev, reason: "cbtrace:" + j["src"].split("let r = ")[1].split("(")[0])
+    chk.part("callbacks", programs=len(ran), violation_reached_host=tripped, traces_accepted=n)
+
+
 def run(chk, tier, seed):
     rnd = random.Random(seed)
     # (a) error-heavy programs
     n = 400 if tier == "quick" else 4000
     progs = [coregen.Gen(seed * 31 + i, max_depth=4, n_decls=6, p_err=0.25, p_disp=0.1).program("e%d" % i)
              for i in range(n)]
+    # an error argument is the result of the call also on the trampoline path and for defaulted parameters
+    progs += c07.error_arg_programs(limits=False) + default_error_programs()
     corecheck.run_core(chk, progs, "c06-errors")
 
     # (b) the whole surface, an error at every argument position
@@ -185,6 +262,8 @@ def run(chk, tier, seed):
         variants += corecheck.limit_variants(p, base[p["id"]], cap=(8 if tier == "quick" else 40), rnd=rnd)
     corecheck.run_core(chk, variants, "c06-violations", trace=True, limits_of=corecheck.xv_limits, validate=(True),
                        nontrivial=lambda p, c: c["viol"] != "none" or any(x.get("viol", "none") != "none" for x in c["runs"]))
+    # (d) a violation raised inside a callback of any higher-order builtin reaches the host
+    callback_sweep(chk, tier)
     chk.cov["rule"] = ("(a) random core programs with error(\"E<k>\") injected at ~25% of expression positions; "
                        "(b) every static root-scope signature with canonical inhabitants and an error at each argument "
                        "position and at pairs; (c) handler templates and random programs under every value of each limit. "
